@@ -543,7 +543,24 @@ Inductive outcome :=
 | ONoFuel        (* lexer / reader fuel exhausted: proved impossible (reader_fuel_sufficient) *)
 | OParseFuel.    (* parser fuel exhausted: not proved impossible; never agrees with anything in [verdict] *)
 
-Definition classify (ts : list tok) : outcome :=
+(* scryer reads "([)", "({)" and "(|)" as the atoms '[', '{' and '|' (reduce_brackets turns a lone separator
+   between parentheses into an atom): such a group is outside the decided grammar, not a bracket error *)
+Fixpoint collapse_sep (ts : list tok) : list tok :=
+  match ts with
+  | [] => []
+  | o :: r =>
+      match r with
+      | TPunct c :: TPunct d :: r2 =>
+          if (match o with TOpenCT => true | TPunct p => p =? 40 | _ => false end)
+             && (d =? 41) && ((c =? 91) || (c =? 123) || (c =? 124))
+          then TUnk :: collapse_sep r2
+          else o :: collapse_sep r
+      | _ => o :: collapse_sep r
+      end
+  end.
+
+Definition classify (ts0 : list tok) : outcome :=
+  let ts := collapse_sep ts0 in
   if negb (balanced [] ts) then OErrSyn
   else if existsb tok_unknown ts then OUnknown
   else match parse (4 * length ts + 8)%nat 1200%nat (number_toks [] ts) with
